@@ -24,7 +24,7 @@ FIXED = {
 }
 VARIABLE = {'v': ['n@ = Int(1)', 'v@ = Data(n@)'], 'm': ['v@ = Data(until_marker=b"\\x00")'], 's': ['n@ = Int(1)', 'v@ = Int(1).repeated(n@)'],
             'p': ['v@ = Bits(4)', 'w@ = Bits(4)'], 'q': ['v@ = Bits(3)', 'w@ = Bits(13)'], 'a': ['v@ = Int(1).at(1, "current-offset")'],
-            'g': ['v@ = Int(2).aligned(2)'], 'e': ['v@ = Em()']}
+            'g': ['v@ = Int(2).aligned(2)'], 'e': ['v@ = Em()'], 'k': ['v@ = Int(1).at(3)'], 'j': ['v@ = Data(2).shift(-3)']}
 
 
 def shape_lines(shape):
@@ -47,8 +47,8 @@ def shapes(tier):
     if tier == 'thorough':
         for t in itertools.product('BHLTD', repeat=4):
             out.append(''.join(t))
-    var = 'vmspqage'
-    runs = ['B', 'HL', 'LH', 'BT', 'HD', 'BHL'] if tier == 'quick' else ['B', 'HL', 'LH', 'BT', 'TB', 'HD', 'BHL', 'LLH', 'IJ', 'bQ']
+    var = 'vmspqagekj'
+    runs = ['B', 'HL', 'LH', 'BT', 'HD', 'BHL', 'HHH', 'BHH'] if tier == 'quick' else ['B', 'HL', 'LH', 'BT', 'TB', 'HD', 'BHL', 'LLH', 'IJ', 'bQ', 'HHH', 'BHH', 'LLL', 'HHHH']
     for v in var:
         for r in runs:
             out.append(v + r)
